@@ -49,26 +49,27 @@ _FNV = "entry(grid._ds, 'face_node_connectivity').values"
 _INV_EN = (f"implies(has(grid._ds, 'edge_node_connectivity') and has({_EN}.attrs, 'inverse_indices'), "
            f"same({_EN}.attrs['inverse_indices'], uf('edge_inverse', {_FNV})) and same({_EN}.data, uf('edge_nodes', {_FNV})))")
 inline(_G + "edge_node_connectivity")
+_SUP = f"summary('{_K}_inverse_indices_for_supplied_edges', grid)"
+_FE = "entry(grid._ds, 'face_edge_connectivity').data"
+_BUILD = "summary('" + _K + "_build_face_edge_connectivity', {inv}, dim(grid, 'n_face'), uf('n_max_face_nodes', src(grid)))"
 contract(_K + "_populate_face_edge_connectivity", props=["C02", "C08"],
          params={"grid": "obj('Grid', attrs='dict')"},
          returns="none",
          requires=["has(grid._ds, 'face_node_connectivity')", _INV_EN],
-         ensures=["has(grid._ds, 'face_edge_connectivity')",
-                  # the stored table is the reshape of the inverse indices of this grid's own edge derivation
-                  f"same(entry(grid._ds, 'face_edge_connectivity').data, summary('{_K}_build_face_edge_connectivity', "
-                  f"uf('edge_inverse', {_FNV}), dim(grid, 'n_face'), uf('n_max_face_nodes', src(grid))))",
+         ensures=["has(grid._ds, 'face_edge_connectivity') and has(grid._ds, 'edge_node_connectivity')",
+                  # face_edge indices number the rows of the edge table the grid REPORTS afterwards:
+                  # (a) a derived table carries the inverse indices it was numbered with, and they are this grid's own (_INV_EN)
+                  f"implies(has({_EN}.attrs, 'inverse_indices'), same({_FE}, " + _BUILD.format(inv=f"{_EN}.attrs['inverse_indices']") + "))",
+                  # (b) a table supplied by the source stays exactly as it was, and the faces' edges are numbered by ITS rows
+                  f"implies(not has({_EN}.attrs, 'inverse_indices'), same({_FE}, " + _BUILD.format(inv=_SUP) + ") and "
+                  f"old(has(grid._ds, 'edge_node_connectivity')) and same({_EN}, old({_EN})) and same({_EN}.data, old({_EN}.data)))",
+                  # a supplied table is only given up when it is not the set of boundary segments of the faces (no row matching)
+                  f"implies(old(has(grid._ds, 'edge_node_connectivity')) and not isnone({_SUP}), same({_EN}, old({_EN})))",
                   "ds_frame(grid._ds, old(grid._ds), ['face_edge_connectivity', 'edge_node_connectivity'])",
-                  # face_edge indices number the rows of the edge table the grid REPORTS: afterwards that table carries the inverse
-                  # indices it was numbered with (a source-supplied table in its own order has been replaced by the derived one)
-                  f"has(grid._ds, 'edge_node_connectivity') and has({_EN}.attrs, 'inverse_indices') and "
-                  f"same(entry(grid._ds, 'face_edge_connectivity').data, summary('{_K}_build_face_edge_connectivity', "
-                  f"{_EN}.attrs['inverse_indices'], dim(grid, 'n_face'), uf('n_max_face_nodes', src(grid))))",
-                  # an edge table that was already there is used as it is
-                  "implies(old(has(grid._ds, 'edge_node_connectivity') and has(entry(grid._ds, 'edge_node_connectivity').attrs, "
-                  "'inverse_indices')), same(entry(grid._ds, 'edge_node_connectivity'), old(entry(grid._ds, 'edge_node_connectivity'))))",
                   _INV_EN],
          modifies=["grid._ds['face_edge_connectivity']", "grid._ds['edge_node_connectivity']"],
-         options={"frames": True, "abstract": True, "summaries": [_K + "_build_face_edge_connectivity"], **_VIEW},
+         options={"frames": True, "abstract": True,
+                  "summaries": [_K + "_build_face_edge_connectivity", _K + "_inverse_indices_for_supplied_edges"], **_VIEW},
          raises=[("Exception", "False", "only_if")])
 
 
